@@ -73,7 +73,12 @@ def verify(k, prop, cls=None, invariants=None, calls=None, hooks=None, extra_pre
 
     def ob(name, s1, goal, kind='code', meta=None):
         if isinstance(goal, bool): goal = BoolVal(goal)
-        obs.append(Obligation(f'{prop}/{tag}/{name}', list(s1.pc), goal, list(s1.labels), kind, meta))
+        hyps = list(s1.pc)
+        if ':qf:' in name:
+            # a quantifier-free clause over locals/ghosts: decided from the quantifier-free path facts alone (see engine.emit)
+            from .engine import _has_quant_cached
+            name = name.replace(':qf:', ':'); hyps = [f for f in hyps if not _has_quant_cached(f)]
+        obs.append(Obligation(f'{prop}/{tag}/{name}', hyps, goal, list(s1.labels), kind, meta))
 
     # vacuity guard: the precondition itself
     obs.append(Obligation(f'{prop}/{tag}/vacuity:requires_satisfiable', pre_pc, BoolVal(False), [], 'canary'))
